@@ -2,7 +2,7 @@
 import math
 import numpy as np
 from harness.core import *
-from harness import gens
+from harness import gens, layouts
 
 NAMES = {"bounce-back": "BounceBack", "midway": "Midway", "to-bounds": "ToBounds", "rand-init": "RandInit"}
 
@@ -63,6 +63,9 @@ def gen_repair_case(rng, scripted_ok=True):
     case = {"name": name, "seed": rng.randrange(2 ** 31), "X": enc(X), "Xb": enc(Xb), "xl": enc(xl), "xu": enc(xu), "kinds": kinds}
     if rng.random() < 0.3:
         case["prime"] = rng.choice(["upper", "lower", "both"])
+    lay = layouts.pick_layout(rng, 0.25)
+    if lay != "C":
+        case["layout"] = lay            # the mutant matrix is Fortran-ordered / a column slice / every other row of a larger array
     if scripted_ok and name in ("bounce-back", "rand-init") and rng.random() < 0.35:
         case["script_vals"] = [rng.choice([0.0, gens.ONE_M, 0.5, 2.0 ** -53, 2.0 ** -1074]).hex() for _ in range(2 * n * v)]
     return case
@@ -131,7 +134,7 @@ class C11(Check):
     IMPORTS = "From PV Require Import Model.Repair Model.Mutate."
     RULE = ("repair functions of dem.py called on X.copy() with generated mutant matrices (coordinates below / above / on / inside "
             "the bounds; zero-width, 1-ulp, tiny and asymmetric ranges; bases on bounds), draws recorded or scripted "
-            "(0, 2^-1074, 2^-53, 0.5, 1-2^-53); 30% of the calls follow a call of the same repair on a box of the same shape with a different upper / lower / both bounds; one case in four goes through DifferentialMutation.do on a bounded problem (scalar F, no jitter, "
+            "(0, 2^-1074, 2^-53, 0.5, 1-2^-53); 30% of the calls follow a call of the same repair on a box of the same shape with a different upper / lower / both bounds; a quarter of the direct calls pass the mutant matrix in another memory layout (Fortran order, column slice of a wider array, every other row of a longer one); one case in four goes through DifferentialMutation.do on a bounded problem (scalar F, no jitter, "
             "ranges of very different width, some nested in each other; integer-coded int64 populations on half-integral boxes; operator objects that have served a wider box before) and is judged against the unrepaired mutants of the same call on an "
             "unbounded problem; non-trivial = at least one coordinate violates a bound; distinct by hash of the case")
     ASSUMPTIONS = ["exact-arithmetic theorem (Q); rounding is covered only by the bit-exact runs and the float oracle",
@@ -159,8 +162,8 @@ class C11(Check):
             REPAIRS[case["name"]](X.copy(), Xb.copy(), pl, pu)
         np.random.seed(case.get("seed", 1))
         with Recorder(rand_values=vals) as rec:
-            Z = REPAIRS[case["name"]](X.copy(), Xb, xl, xu)
-        return {"Z": enc(Z), "events": enc_events(rec.events),
+            Z = REPAIRS[case["name"]](layouts.relayout(X.copy(), case.get("layout")), layouts.relayout(Xb, case.get("layout")) if case.get("layout") else Xb, xl, xu)
+        return {"Z": enc(np.array(Z)), "events": enc_events(rec.events),
                 "args_unchanged": bool(np.array_equal(Xb, Xb0) and np.array_equal(xl, xl0) and np.array_equal(xu, xu0))}
 
     def oracle(self, case, obs):
@@ -191,6 +194,7 @@ class C11(Check):
         if np.any(X < xl): out.append("lower-violation")
         if np.any(X > xu): out.append("upper-violation")
         if np.any(xl == xu): out.append("zero-width")
+        if case.get("layout"): out.append("layout-" + case["layout"])
         if "script_vals" in case: out.append("scripted-draws")
         if case.get("prime"): out.append("after-call-on-other-box")
         if not (np.any(X < xl) or np.any(X > xu)): out.append("no-violation")
